@@ -13,7 +13,7 @@ WORLDS = [(1, "plain")]
 BUDGET = {"quick": dict(cases=3000), "thorough": dict(cases=90000)}
 MIN_NONTRIVIAL = {"quick": 2000, "thorough": 30000}
 BLOB = (200, 700)
-RULE = ("Hypothesis byte-backed generator: one command with 1-4 variables, the numeric target (INT/UINT/HEX x size 1,2,4 and the "
+RULE = ("Enumerated sub-sweep 'beyond-64KiB': 280 cases with argument texts of 65 534 - 131 073 characters in working buffers larger than 64 KiB (zero-padded in-range values, long digit strings, all numeric types, both positions, shared and separate buffers). Hypothesis byte-backed generator: one command with 1-4 variables, the numeric target (INT/UINT/HEX x size 1,2,4 and the "
         "unsupported sizes 3,8; RW or WO) at a generated position behind valid arguments of random types, with/without write "
         "handler, need_all on/off, random previous value; target text from weighted classes: boundary values min-1,min,max,max+1, "
         "2^31, 2^32, 2^63, 2^64 +-{0,1,5}, 2^64*k+small, width boundaries followed by 1-12 further digits, 1-40 leading zeros, digit counts up to the capacity, sign variants "
